@@ -234,3 +234,63 @@ func (r *Runner) storeChecked(st *State, p *Place, v Val, pos token.Pos) {
 		}
 	}
 }
+
+// placeOfExpr evaluates a field-selection chain (a.b.c) to the memory place it designates.
+// Pointer-valued links are dereferenced; struct-valued links extend the field path.
+func (e *SEnv) placeOfExpr(x SExpr) *Place {
+	n, ok := x.(*SSel)
+	if !ok {
+		v := e.eval(x)
+		if v.T == nil {
+			sfail("place of a spec value")
+		}
+		if _, isPtr := v.T.Underlying().(*types.Pointer); !isPtr {
+			sfail("place: %v is not a pointer", v.T)
+		}
+		return e.r.placeOf(v)
+	}
+	// try: the prefix evaluates to a pointer value
+	var base *Place
+	var bt types.Type
+	func() {
+		defer func() {
+			if r := recover(); r != nil {
+				if _, ok := r.(specErr); !ok {
+					panic(r)
+				}
+			}
+		}()
+		v := e.eval(n.X)
+		if v.T != nil {
+			if pt, isPtr := v.T.Underlying().(*types.Pointer); isPtr {
+				base = e.r.placeOf(v)
+				bt = pt.Elem()
+			}
+		}
+	}()
+	if base == nil {
+		base = e.placeOfExpr(n.X)
+		bt, _, _ = base.typeAt()
+	}
+	st, ok := bt.Underlying().(*types.Struct)
+	if !ok {
+		sfail("place: field %s of non-struct %v", n.Name, bt)
+	}
+	for i := 0; i < st.NumFields(); i++ {
+		if st.Field(i).Name() == n.Name {
+			return base.withField(i)
+		}
+	}
+	sfail("place: no field %s in %v", n.Name, bt)
+	return nil
+}
+
+// pureIfaceMethod: declared by `pureiface IFACE prefix...` in a contract file.
+func (r *Runner) pureIfaceMethod(iface, method string) bool {
+	for _, p := range r.specs.PureIface[iface] {
+		if len(method) >= len(p) && method[:len(p)] == p {
+			return true
+		}
+	}
+	return false
+}
